@@ -48,6 +48,27 @@ def apply_spec(root, spec):
     return None
 
 
+class _F:
+    """finding as read back from a sub-process run of ./check"""
+    def __init__(self, j):
+        self.rule, self.construct, self.msg, self._key = j["rule"], j["construct"], j["message"], j["key"]
+
+    def key(self):
+        return self._key
+
+
+def analyse_in_subprocess(prop, repo_copy, work):
+    """one ./check process per scratch copy: the rule engine keeps per-process caches and a closure hook, so copies must not
+    share an interpreter"""
+    out = os.path.join(work, "findings.json")
+    r = subprocess.run([os.path.join(VERIF, "check"), prop, "--tier", "quick", "--repo", repo_copy, "--no-evidence", "--emit-findings", out],
+                       capture_output=True, text=True, env=dict(os.environ, VERIF_TIER="quick"))
+    if r.returncode == 2 or not os.path.exists(out):
+        raise RuntimeError((r.stdout + r.stderr)[-600:])
+    with open(out) as f:
+        return [_F(j) for j in json.load(f)]
+
+
 def run_one(spec, repo, analyse_findings, known_keys):
     work = tempfile.mkdtemp(prefix="pdsa-selftest.")
     try:
@@ -61,7 +82,7 @@ def run_one(spec, repo, analyse_findings, known_keys):
         if why is not None:
             return {"name": spec["name"], "kind": spec["kind"], "status": "skipped", "why": why}
         try:
-            findings = analyse_findings(dst)
+            findings = analyse_findings(dst) if analyse_findings is not None else analyse_in_subprocess(spec["property"], dst, work)
         except Exception as e:  # does not compile (any more): not a usable spec
             return {"name": spec["name"], "kind": spec["kind"], "status": "skipped", "why": "analysis failed: %s" % str(e)[:300]}
         new = [f for f in findings if f.key() not in known_keys]
